@@ -1117,6 +1117,125 @@ def process_level_streams(ctx, res, nconv=4, spec="popen"):
         res.violations.append(dict(case={"scenario": "process-streams", "spec": spec}, what=p))
 
 
+def process_level_structured(ctx, res, nthreads=4, nitems=40):
+    """C02: several REAL sender threads of one side send large structured items (lists of thousands of ints: serialization takes
+    long enough for thread switches inside it) at the same time, each on its own channel; the peer answers with a checksum.
+    Every item arrives whole, on its own channel, in order."""
+    import threading
+
+    execnet = ctx.execnet
+    group = execnet.Group()
+    problems = []
+    res.count(("proc-structured", nthreads, nitems))
+    res.stat("process_level_runs")
+    try:
+        gw = group.makegateway("popen")
+        body = "while True:\n    x = channel.receive()\n    if x is None:\n        break\n    channel.send((x[0], x[1], len(x[2]), sum(x[2])))\n"
+        chans = [gw.remote_exec(body) for _ in range(nthreads)]
+        got = [[] for _ in range(nthreads)]
+
+        def sender(t):
+            for i in range(nitems):
+                chans[t].send((t, i, list(range(t * 1000 + i, t * 1000 + i + 5000))))
+            chans[t].send(None)
+
+        def receiver(t):
+            try:
+                for _ in range(nitems):
+                    got[t].append(chans[t].receive(30))
+            except Exception as e:  # noqa: BLE001
+                got[t].append(("EXC", repr(e)))
+        ths = [threading.Thread(target=f, args=(t,), daemon=True) for t in range(nthreads) for f in (sender, receiver)]
+        for th in ths:
+            th.start()
+        for th in ths:
+            th.join(60)
+            if th.is_alive():
+                problems.append("a sender/receiver thread hung")
+                break
+        for t in range(nthreads):
+            exp = [(t, i, 5000, sum(range(t * 1000 + i, t * 1000 + i + 5000))) for i in range(nitems)]
+            if got[t] != exp:
+                bad = next((k for k, (a, b) in enumerate(zip(got[t], exp)) if a != b), len(got[t]))
+                problems.append("channel of sender thread %d: %d of %d items intact, first difference at item %d: %r" % (t, bad, nitems, bad, got[t][bad:bad + 1]))
+    except Exception as e:  # noqa: BLE001
+        problems.append("process-level structured run failed: %r" % (e,))
+    finally:
+        threading.Thread(target=lambda: group.terminate(timeout=1.0), daemon=True).start()
+    for p in problems:
+        res.violations.append(dict(case={"scenario": "process-structured", "threads": nthreads, "items": nitems}, what=p))
+    if not problems:
+        res.traces += 1
+
+
+def process_level_backlog(ctx, res, sizes=(1000, 1001, 4096, 5000)):
+    """C03/C10: the peer sends N items and ends BEFORE this side looks at the channel: `waitclose()` returns (the close is
+    ordered behind any backlog), then all N items are receivable in order, then EOFError; with `setcallback` after the
+    backlog has built up: all N items, then the endmarker."""
+    import threading
+    import time
+
+    execnet = ctx.execnet
+    gb = execnet.gateway_base
+    for n in sizes:
+        for mode in ("waitclose-then-receive", "setcallback-late"):
+            case = {"scenario": "process-backlog", "items": n, "mode": mode}
+            res.count(("proc-backlog", n, mode))
+            res.stat("process_level_runs")
+            group = execnet.Group()
+            problem = None
+            try:
+                gw = group.makegateway("popen")
+                ch = gw.remote_exec("for i in range(%d):\n    channel.send(i)\n" % n)
+                probe = gw.remote_exec("channel.send('alive')")   # a sibling conversation behind the backlog
+                if mode == "waitclose-then-receive":
+                    try:
+                        ch.waitclose(20)
+                    except gb.TimeoutError:
+                        problem = "waitclose() did not return although the peer's body ended behind a backlog of %d unread items" % n
+                    if problem is None:
+                        items = []
+                        try:
+                            while True:
+                                items.append(ch.receive(10))
+                        except EOFError:
+                            pass
+                        if items != list(range(n)):
+                            problem = "backlog of %d items: %d receivable after the close (first difference at %d)" % (
+                                n, len(items), next((k for k, (a, b) in enumerate(zip(items, range(n))) if a != b), len(items)))
+                else:
+                    time.sleep(0.3 if n < 2000 else 0.8)   # let the backlog build up
+                    log = []
+                    END = object()
+                    done = threading.Event()
+
+                    def cb(x):
+                        log.append(x)
+                        if x is END:
+                            done.set()
+                    st = threading.Thread(target=lambda: ch.setcallback(cb, endmarker=END), daemon=True)
+                    st.start()
+                    st.join(20)
+                    if st.is_alive():
+                        problem = "setcallback() did not return within 20 s with a backlog of %d items" % n
+                    elif not done.wait(20) or log[:-1] != list(range(n)):
+                        problem = "setcallback after a backlog of %d items: callback got %d items, endmarker %s" % (n, len([x for x in log if x is not END]), done.is_set())
+                if problem is None:
+                    try:
+                        if probe.receive(10) != "alive":
+                            problem = "sibling conversation answered wrongly"
+                    except Exception as e:  # noqa: BLE001
+                        problem = "sibling conversation behind a backlog of %d items: %r" % (n, e)
+            except Exception as e:  # noqa: BLE001
+                problem = "process-level backlog run failed: %r" % (e,)
+            finally:
+                threading.Thread(target=lambda g=group: g.terminate(timeout=1.0), daemon=True).start()
+            if problem:
+                res.violations.append(dict(case=case, what=problem))
+                return
+            res.traces += 1
+
+
 def process_level_kill(ctx, res, nruns=3):
     """C04: a REAL worker process is SIGKILLed while it streams items (possibly in the middle of a frame): blocked receivers get
     complete items in order and then EOFError, waitclose raises EOFError, a callback gets its endmarker, nothing blocks; afterwards
